@@ -5,14 +5,19 @@ class C12(Prop):
     id = "C12"
     harness = "c06"
     props_file = "Properties/C12.v"
-    coq_modules = ["Stop/Check.v", "Stop/CheckProofs.v", "Stop/GenStop.v", "Stop/GenStopProofs.v", "Stop/GenStopSim.v"]
+    coq_modules = ["Stop/Check.v", "Stop/CheckProofs.v", "Stop/GenStop.v", "Stop/GenStopProofs.v", "Stop/GenStopSim.v",
+                   "Stop/Lifecycle.v", "Stop/LifecycleProofs.v"]
     level = "proof"
     rule = ("same assembly as C06 (real lifecycle service of both engines, fake plugins); Stop(force) at a random "
             "position of a random environment schedule (quick) or at every position (thorough), gates left as they are "
             "(blocked destinations / DLQ stay blocked until the run ended); a quarter of the cases issue a graceful "
             "StopAndWait first; some make the source plugin's Stop call slow. afterwards WaitPipeline must return within "
             "5 s, the status is watched for 25 ms (recovery back-off is 1-5 ms), then everything is released and the "
-            "pipeline is started again. distinct = distinct input JSON; non-trivial = records were in flight or a plugin "
+            "pipeline is started again - in half of the cases after a process restart (fresh services on the same store, "
+            "Init), in the other half in the SAME process, i.e. through the connector instances the force-stopped run "
+            "used. In half of the cases the fake connector plugins honour the context of their Stop / Teardown calls as "
+            "the built-in sandbox and gRPC transports do: called with the cancelled connector context of a force-stopped "
+            "run they do their work and answer ctx.Err() (8 corpus cases are directed at this). distinct = distinct input JSON; non-trivial = records were in flight or a plugin "
             "was blocked when the force stop was called")
     trusted_base = [
         "Coq 8.16.1 kernel + vm_compute (no native_compute)",
@@ -22,7 +27,8 @@ class C12(Prop):
         "acceptor + monitor over the event log of the real services (coq/Stop/Check.v)",
     ]
     assumptions = [
-        "a blocked plugin call returns when its context is cancelled (the fake plugins do)",
+        "a blocked plugin call returns when its context is cancelled (the fake plugins do); a plugin's Stop / Teardown "
+        "may fail with the context's error only when the context it was called with is cancelled",
         "the force stop is the first reason the run ends (a node error that wins the race to the tomb is C10's subject)",
         "the store answers: v2 tears its sources down with a background context and waits out the 10 s flush budget "
         "when the store is stalled",
@@ -77,7 +83,8 @@ class C12(Prop):
 
     def distribution(self, cases):
         d = {"v1": 0, "v2": 0, "force_during_graceful_stop": 0, "force_with_inflight": 0, "force_idle": 0,
-             "force_at_startup": 0, "blocked_destination": 0, "terminated": 0, "not_terminated": 0}
+             "force_at_startup": 0, "blocked_destination": 0, "terminated": 0, "not_terminated": 0,
+             "ctx_honouring_plugins": 0, "restart_same_process": 0, "restart_after_reboot": 0}
         for c in cases:
             i, o = c["input"], c.get("observed") or {}
             d[i["topo"]["engine"]] += 1
@@ -85,6 +92,9 @@ class C12(Prop):
             d["force_during_graceful_stop"] += "stop" in sched
             d["force_at_startup"] += len(sched) > 1 and sched[1] == "force"
             evs = o.get("evs") or []
+            d["ctx_honouring_plugins"] += bool(i["topo"].get("strict_ctx"))
+            d["restart_same_process"] += any(e["k"] == "sameproc" for e in evs)
+            d["restart_after_reboot"] += any(e["k"] == "boot" for e in evs)
             d["terminated"] += any(e["k"] == "term" for e in evs)
             d["not_terminated"] += any(e["k"] == "noterm" for e in evs)
             if self.nontrivial(c):
